@@ -30,6 +30,7 @@ RULES = {
     "R13.1": "every distribution call site is triaged; truncated tables of unbounded distributions are closed by tail folding (sum == 1 as a term) or an exact complement pair",
     "R13.2": "table length == event-space size; the censored mass is folded into the last index",
     "R13.3": "Mirjalili: event space == demands x {splits in [0,Q]^m with sum <= Q} (full cross product), Q == action-space bound; zero probability outside {sum == order}",
+    "R13.5": "no logarithm of a configuration parameter at an accepted singular value: log(p) where the validator accepts p = 0, log1p(-p) / log(1 - p) where it accepts p = 1 (0 * -inf = NaN makes every event probability non-finite); expected count zero, decided from the validator domains of C20",
     "R13.4": "Forest: each row of the probability table sums to 1 as a polynomial",
 }
 ASSUMPTIONS = [
@@ -120,6 +121,57 @@ def length_of(t):
     return None
 
 
+def _log_hazards(ctx, col):
+    """R13.5: logarithms of configuration parameters whose accepted domain reaches the singularity."""
+    import ast
+
+    from .c20 import DOMAINS
+
+    for cls in ctx.problems():
+        ca = ctx.ct.class_attr(cls, "Config")
+        cfg = ctx.ct.class_of_dotted(ctx.ct.resolve_name(ca[0].module, ast.unparse(ca[1]))) if ca else None
+        dom = DOMAINS.get(cfg.name, {}) if cfg is not None else {}
+
+        def accepts(field, x):
+            for c in dom.get(field, []):
+                if c[0] == "accept":
+                    return any(iv.contains(x) for iv in c[1])
+            return field in dom and False
+
+        def field_of(e):
+            # self.<f> / self.config.<f> / cfg-like chains ending in a configuration field name
+            if isinstance(e, ast.Attribute) and e.attr in dom:
+                return e.attr
+            return None
+
+        bad = []
+        nfn = 0
+        for owner, fn in ctx.ct.methods_of(cls).values():
+            if owner.name == "Problem":
+                continue
+            nfn += 1
+            for c in ast.walk(fn):
+                if not (isinstance(c, ast.Call) and isinstance(c.func, ast.Attribute) and c.func.attr in ("log", "log1p", "log2", "log10", "xlogy") and c.args):
+                    continue
+                a = c.args[0]
+                f = field_of(a)
+                if c.func.attr in ("log", "log2", "log10") and f and accepts(f, 0.0):
+                    bad.append((owner, fn, c, f, 0))
+                # log1p(-p), log(1 - p)
+                neg = a.operand if isinstance(a, ast.UnaryOp) and isinstance(a.op, ast.USub) else None
+                if c.func.attr == "log1p" and neg is not None and field_of(neg) and accepts(field_of(neg), 1.0):
+                    bad.append((owner, fn, c, field_of(neg), 1))
+                if c.func.attr in ("log", "log2", "log10") and isinstance(a, ast.BinOp) and isinstance(a.op, ast.Sub) \
+                        and isinstance(a.left, ast.Constant) and a.left.value == 1 and field_of(a.right) and accepts(field_of(a.right), 1.0):
+                    bad.append((owner, fn, c, field_of(a.right), 1))
+        for owner, fn, c, f, at in bad:
+            col.add("R13.5", f"{cls.name}.{fn.name}", owner.module.relpath, c.lineno, False,
+                    f"`{ast.unparse(c)[:80]}`: the validator accepts {f} = {at}, where this logarithm is -inf; multiplied by a zero count it is NaN, "
+                    "so every event probability of the problem becomes non-finite", text=f"log at accepted {f}={at}")
+        col.add("R13.5", cls.name, cls.module.relpath, cls.node.lineno, True,
+                f"{nfn} methods scanned: no logarithm of a parameter at an accepted singular value", text="log hazards scanned")
+
+
 def run(ctx: Context, col) -> None:
     # ---- triage of all call sites
     sites = _call_sites(ctx)
@@ -137,6 +189,7 @@ def run(ctx: Context, col) -> None:
         verdict, reason = tri
         col.add("R13.1", construct, cls.module.relpath, c.lineno, verdict == "closed",
                 f"{callee}: {reason}", text=f"{callee} [{verdict}]")
+    _log_hazards(ctx, col)
     missing = [k for k in TRIAGE if k not in seen_keys]
     if missing:
         raise AnalysisError(f"anchor vanished: triaged distribution call sites no longer exist: {missing}")
@@ -144,6 +197,7 @@ def run(ctx: Context, col) -> None:
     _mirjalili(ctx, col)
     _hendrix_pairs(ctx, col)
     _forest(ctx, col)
+    col.floor("R13.5", 4)
     col.floor("R13.1", 14)
     col.floor("R13.2", 2)
     col.floor("R13.3", 3)
